@@ -297,7 +297,8 @@ def run(ctx):
     for i, variant in enumerate(["toy2", "gendb"] if quick else ["toy2", "gendb", "toy2", "gendb", "toy2", "gendb"]):
         wd = os.path.join(d, f"w{i}")
         os.makedirs(wd)
-        sim_worlds.append(W.build_sim_world(wd, rng.randrange(1 << 30), variant))
+        # every other toy2 world is genotyped with an EXPLICIT genome that the BAM header does not reveal (hg38)
+        sim_worlds.append(W.build_sim_world(wd, rng.randrange(1 << 30), variant, genome="hg38" if variant == "toy2" and i % 4 == 0 else "hg19"))
     for g in (["cyp2c19", "nudt15"] if quick else ["cyp2c19", "nudt15", "tpmt", "cyp3a5", "cyp2b6", "cyp2w1"]):
         syn_worlds.append(W.build_syn_world(rng.randrange(1 << 30), g))
     ctx.parts["worlds"] = {"sim": [{"variant": w["variant"], "genes": {g: x["name"] for g, x in w["genes"].items()},
